@@ -115,6 +115,16 @@ def analyse_unit(unit, repo, scratch, tier, seed, cfg):
         for _round in range(3):
             p0 = subprocess.run(["verus", gen, "--no-verify", "--error-format=json"], capture_output=True, text=True, timeout=300, cwd=scratch)
             missing = set(re.findall(r"cannot find value `([A-Z][A-Z0-9_]*)` in this scope", p0.stderr))
+            # A constant used in PATTERN position (`MARKER => ..`) that is not in scope does not fail to compile: the identifier silently
+            # becomes a catch-all binding, and the extracted text would mean something else than the code that runs.  So every
+            # SCREAMING_CASE identifier of the extracted real code that has no definition in the generated file is looked up as well.
+            defined_ = set(re.findall(r"\b(?:const|static)\s+([A-Z][A-Z0-9_]*)\b", text))
+            glines_ = text.split("\n")
+            for k_, e_ in enumerate(meta["linemap"]):
+                if e_.get("kind") == "orig" and k_ < len(glines_):
+                    code_ = glines_[k_].split("//")[0]
+                    for m_ in re.finditer(r"(?<![\w:])([A-Z][A-Z0-9_]{2,})(?![\w(!{]|\s*::)", code_):
+                        if m_.group(1) not in defined_: missing.add(m_.group(1))
             if not missing: break
             added = []
             files = sorted(set(it["file"] for it in meta["items"]))
@@ -221,6 +231,32 @@ def analyse_unit(unit, repo, scratch, tier, seed, cfg):
         for k in range(ls, min(le, ls + 40) + 1):
             if 0 < k <= len(lm) and "ctags" in lm[k - 1]: t += lm[k - 1]["ctags"]
         return sorted(set(t))
+    # "an obligation that passed on the unchanged tree and now fails": a failure SITED on a line of real code that does not occur in
+    # the baseline text of its function (a new debug_assert!, a new early-return fast path, a rewritten expression) is a NEW obligation,
+    # not a regression of one that used to be discharged - the unit has no proof text for it.  Such failures are undecided-class (the
+    # bounded differential run decides); failures sited on unchanged lines (the end of the body, an unchanged call site, an unchanged
+    # return) stay violations.
+    try:
+        _base_fns = json.load(open(os.path.join(ROOT, "vc", "baseline_fns.json")))
+    except Exception:
+        _base_fns = {}
+    _src_cache = {}
+    def site_is_new_code(line_no):
+        m_ = lm[line_no - 1] if 0 < line_no <= len(lm) else {}
+        if m_.get("kind") != "orig" or not m_.get("orig_line") or m_.get("item") is None: return False
+        it_ = meta["items"][m_["item"]]
+        base_ = _base_fns.get("%s :: %s" % (it_["file"], it_["path"]))
+        if not base_: return False
+        f_ = it_["file"]
+        if f_ not in _src_cache:
+            try: _src_cache[f_] = open(os.path.join(repo, f_)).read().split("\n")
+            except Exception: _src_cache[f_] = []
+        ls_ = _src_cache[f_]
+        if not (0 < m_["orig_line"] <= len(ls_)): return False
+        cur_ = re.sub(r"\s+", " ", ls_[m_["orig_line"] - 1].split("//")[0]).strip()
+        if not cur_: return False
+        base_lines_ = set(re.sub(r"\s+", " ", b.split("//")[0]).strip() for b in base_.split("\n"))
+        return cur_ not in base_lines_
     for d in main["diags"]:
         if d.get("level") != "error": continue
         msg = d.get("message", "")
@@ -239,7 +275,8 @@ def analyse_unit(unit, repo, scratch, tier, seed, cfg):
             continue
         # the clause span is the one labelled 'failed this postcondition/precondition/...' if any, else primary
         clause = [s for s in sp if s[2] and "failed" in s[2]] or [s for s in sp if s[3]] or sp
-        site = [s for s in sp if s[3]] or sp
+        # postcondition failures: the primary span is the clause; the exit at which it fails is a secondary span
+        site = [s for s in sp if s[2] and (s[2].startswith("at this exit") or s[2].startswith("at the end of the function"))] or [s for s in sp if s[3]] or sp
         cl_line = clause[0][0] if clause else 0
         site_line = site[0][0] if site else cl_line
         # function: where the failing code is (for postconditions the clause lies in the fn header: same fn)
@@ -263,7 +300,8 @@ def analyse_unit(unit, repo, scratch, tier, seed, cfg):
             "gen_line": site_line, "clause_gen_line": cl_line, "repo_location": orig, "tags": tags, "tag_level": level,
             # the failing statement is spliced PROOF TEXT (an assert / lemma call of a //@before|after|bodystart hint, or an inductive
             # loop invariant / decreases clause of //@loop), not a clause of the function's contract and not real code
-            "in_hint": bool((m.get("kind") == "ghost" and m.get("tag") in ("ghost-proof", "ghost-body", "ghost-loop"))
+            "new_site": site_is_new_code(site_line),
+            "in_hint": bool((m.get("kind") == "ghost" and m.get("tag") in ("ghost-proof", "ghost-body", "ghost-loop")) or site_is_new_code(site_line)
                             or (0 < cl_line <= len(lm) and lm[cl_line - 1].get("kind") == "ghost" and lm[cl_line - 1].get("tag") == "ghost-loop")
                             or (f is not None and "sig_line" in f and lm[f["sig_line"] - 1].get("item") is not None
                                 and meta["items"][lm[f["sig_line"] - 1]["item"]].get("adapted"))),
@@ -454,7 +492,7 @@ def main():
                 violations = [f for f in violations if (f.get("unit"), f.get("function")) not in hint_fns]
                 for u, fn in sorted(set((f.get("unit"), f.get("function")) for f in moved)):
                     cl = [("%s: %s" % (f.get("message"), (f.get("clause") or "")[:120])) for f in moved if f.get("unit") == u and f.get("function") == fn]
-                    undecided.append("%s: proof hints inside fn %s no longer verify on the changed text, so its %d failing obligation(s) are not attributable (tool limit): %s" % (u, fn, len(cl), " | ".join(cl[:3])))
+                    undecided.append("%s: fn %s: a spliced proof hint fails or a failure is sited on a line of code that is not in the baseline text of the function (a new obligation, not one that used to be discharged), so its %d failing obligation(s) are not attributable (tool limit): %s" % (u, fn, len(cl), " | ".join(cl[:3])))
         for er in extra_results:
             for f in er.get("failures", []):
                 hit = None
